@@ -278,6 +278,44 @@ func propC08(c *ctx) error {
 			})
 		}
 	}
+	// a manager whose GLOBAL scope misbehaves (a user Scope whose Get panics, a nil Scope): every directive that looks a name
+	// up — also the object of a range written as a bare name — ends with an error value
+	for _, gk := range []string{"panics", "nil", "panics-on-some"} {
+		for _, tplSrc := range []string{`<p :range="x : items">o</p>`, `<p :range="i, x : items" :text="${x}">o</p>`, `<p :text="${items}">o</p>`, `<p :if="${items}">o</p><i :else>e</i>`,
+			`<p :with="v := ${items}" :text="${v}">o</p>`, `<p :insert="${items}">o</p>`, `<p :title="a${items}b">o</p>`, `<p :range="x : (items)">o</p>`, `<p :range="x : items.sub">o</p>`, `<p :range="items">o</p>`} {
+			in := J{"global_scope": gk, "src": tplSrc}
+			res.eval("badglobal|"+jstr(in), true, in)
+			res.count("misbehaving_global_scope")
+			guard("Add+Execute (misbehaving global scope)", in, func() {
+				m := html.NewTplManager()
+				switch gk {
+				case "panics":
+					m.SetGlobalScope(scopeFunc(func(name string) (any, error) { panic("global scope: " + name) }))
+				case "nil":
+					m.SetGlobalScope(nil)
+				default:
+					m.SetGlobalScope(scopeFunc(func(name string) (any, error) {
+						if name == "items" {
+							var mm map[string]int
+							mm["x"] = 1 // a runtime panic of the user's code
+						}
+						return nil, exp.ErrNoSuchValue
+					}))
+				}
+				if err := m.Add("t", strings.NewReader(tplSrc)); err != nil {
+					return
+				}
+				t, err := m.GetTemplate("t")
+				if err != nil {
+					return
+				}
+				var sb strings.Builder
+				if err := t.Execute(&sb, map[string]any{"other": 1}); err == nil {
+					res.violate(in, "error value", "nil, output "+sb.String(), "a lookup that panics in the global scope does not end as an error value")
+				}
+			})
+		}
+	}
 	// inside a raw-text element: every proper prefix of its own end tag (in either letter case) followed by characters of
 	// one to four bytes, by the end of input, by another prefix
 	for _, el := range []string{"script", "style", "textarea", "title", "SCRIPT", "Title"} {
